@@ -271,7 +271,8 @@ def _table_lookup(table, fname, site, config, exact):
         toks = site.get('toks', set())
         ok = True
         for c in m.get('calls', []):
-            ok = ok and any(tk[0] == 'call' and tk[1].endswith(c) for tk in toks)
+            from analyses import has_call
+            ok = ok and has_call(toks, c)
         for f in m.get('fields', []):
             ok = ok and ('field', f) in toks
         for c in m.get('consts', []):
